@@ -12,52 +12,90 @@ namespace Spowtd
 theorem crossing_reported_iff (step x0 y0 x1 y1 : Rat) (hs : 0 < step) (k : Int) :
     (∃ x, (k, x) ∈ crossingsPair step x0 y0 x1 y1) ↔
       (min y0 y1 ≤ (k : Rat) * step ∧ (k : Rat) * step < max y0 y1) := by
-  sorry
+  rw [← mem_pairTargets_minmax hs]
+  exact ⟨fun ⟨_, h⟩ => (mem_crossingsPair.mp h).1, fun h => ⟨_, mem_crossingsPair.mpr ⟨h, rfl⟩⟩⟩
 
 /-- … exactly once for that pair. -/
 theorem crossing_once (step x0 y0 x1 y1 : Rat) :
     ((crossingsPair step x0 y0 x1 y1).map (·.1)).Nodup := by
-  sorry
+  rw [crossingsPair_levels]
+  exact pairTargets_nodup step y0 y1
 
 /-- The reported position is a point where the straight-line interpolation of the two samples
     equals the level. -/
 theorem crossing_on_chord (step x0 y0 x1 y1 : Rat) (hs : 0 < step) (hx : x0 ≠ x1) (k : Int) (x : Rat)
     (h : (k, x) ∈ crossingsPair step x0 y0 x1 y1) :
     y0 + (y1 - y0) * ((x - x0) / (x1 - x0)) = (k : Rat) * step := by
-  sorry
+  obtain ⟨hk, rfl⟩ := mem_crossingsPair.mp h
+  exact pairPos_on_chord hs hx hk
 
-/-- … and lies between the two samples that bracket it. -/
-theorem crossing_between (step x0 y0 x1 y1 : Rat) (hs : 0 < step) (hx : x0 ≤ x1) (k : Int) (x : Rat)
+/-- … and lies between the two samples that bracket it.  (`0 < step` is not needed for this.) -/
+theorem crossing_between (step x0 y0 x1 y1 : Rat) (_hs : 0 < step) (hx : x0 ≤ x1) (k : Int) (x : Rat)
     (h : (k, x) ∈ crossingsPair step x0 y0 x1 y1) : x0 ≤ x ∧ x ≤ x1 := by
-  sorry
+  obtain ⟨hk, rfl⟩ := mem_crossingsPair.mp h
+  exact pairPos_between hx hk
 
-/-- Levels come out ascending on a rising pair and descending on a falling pair. -/
-theorem crossing_order (step x0 y0 x1 y1 : Rat) :
+/-- Levels come out ascending on a rising pair and descending on a falling pair.
+    (Hypothesis `0 < step` added: with a negative step the scaled values `y/step` are ordered the
+    other way round and the statement fails, see the counterexample below.) -/
+theorem crossing_order (step x0 y0 x1 y1 : Rat) (hs : 0 < step) :
     (y0 ≤ y1 → ((crossingsPair step x0 y0 x1 y1).map (·.1)).Pairwise (· < ·)) ∧
     (y1 ≤ y0 → ((crossingsPair step x0 y0 x1 y1).map (·.1)).Pairwise (· > ·)) := by
-  sorry
+  rw [crossingsPair_levels]
+  exact ⟨pairTargets_ascending hs, pairTargets_descending hs⟩
+
+/-- why `0 < step` is needed in `crossing_order`: a rising pair, step `-1`, levels descending -/
+example : (crossingsPair (-1 : Rat) 0 0 10 2).map (·.1) = [-1, -2] := by decide +kernel
 
 /-- Nothing else is reported: the crossings of a series are those of its consecutive pairs. -/
 theorem crossings_mem (step : Rat) (pts : List (Rat × Rat)) (c : Int × Rat) :
     c ∈ crossings step pts ↔
-      ∃ i a b, pts[i]? = some a ∧ pts[i + 1]? = some b ∧ c ∈ crossingsPair step a.1 a.2 b.1 b.2 := by
-  sorry
+      ∃ i a b, pts[i]? = some a ∧ pts[i + 1]? = some b ∧ c ∈ crossingsPair step a.1 a.2 b.1 b.2 :=
+  mem_crossings step pts c
 
 /-- Shifting the abscissae shifts the positions and nothing else (re-basing, time origin). -/
 theorem crossings_shift_x (step c : Rat) (pts : List (Rat × Rat)) :
     crossings step (pts.map (fun p => (p.1 + c, p.2))) =
-      (crossings step pts).map (fun q => (q.1, q.2 + c)) := by
-  sorry
+      (crossings step pts).map (fun q => (q.1, q.2 + c)) :=
+  crossings_shift step c pts
 
 /-- The value stored for a level is the mean of that series' own crossing positions of it. -/
 theorem meanCrossings_spec (step : Rat) (pts : List (Rat × Rat)) (k : Int) (v : Rat) :
     (k, v) ∈ meanCrossings step pts ↔
       (∃ x, (k, x) ∈ crossings step pts) ∧
-      v = mean (((crossings step pts).filter (fun c => c.1 == k)).map (·.2)) := by
-  sorry
+      v = mean (((crossings step pts).filter (fun c => c.1 == k)).map (·.2)) :=
+  mem_meanCrossings step pts k v
 
 theorem meanCrossings_levels_nodup (step : Rat) (pts : List (Rat × Rat)) :
     ((meanCrossings step pts).map (·.1)).Nodup := by
-  sorry
+  rw [meanCrossings_levels]
+  exact levelsOf_nodup _
+
+/-! ### non-vacuity: concrete series (exact rational arithmetic, evaluated in the kernel) -/
+
+/-- rising segment (0, 0.5)–(10, 3.5), step 1: levels 1, 2, 3 -/
+example : crossingsPair (1 : Rat) 0 (1/2) 10 (7/2) = [(1, 5/3), (2, 5), (3, 25/3)] := by
+  decide +kernel
+/-- falling segment: the same levels, descending -/
+example : crossingsPair (1 : Rat) 0 (7/2) 10 (1/2) = [(3, 5/3), (2, 5), (1, 25/3)] := by
+  decide +kernel
+/-- a sample exactly on a level: the lower value is included, the upper one excluded -/
+example : crossingsPair (1 : Rat) 0 1 10 3 = [(1, 0), (2, 5)] := by decide +kernel
+example : crossingsPair (1 : Rat) 0 3 10 1 = [(2, 5), (1, 10)] := by decide +kernel
+/-- flat segment, even on a level: no crossing -/
+example : crossingsPair (1 : Rat) 0 2 10 2 = [] := by decide +kernel
+/-- a step other than 1 -/
+example : crossingsPair (1/2 : Rat) 0 (1/4) 3 (5/4) = [(1, 3/4), (2, 9/4)] := by decide +kernel
+/-- a series crossing level 1 three times and level 2 once; mean position per level -/
+example : crossings (1 : Rat) [(0, 1/2), (1, 3/2), (2, 1/2), (4, 5/2)] =
+    [(1, 1/2), (1, 3/2), (1, 5/2), (2, 7/2)] := by decide +kernel
+example : meanCrossings (1 : Rat) [(0, 1/2), (1, 3/2), (2, 1/2), (4, 5/2)] =
+    [(1, 3/2), (2, 7/2)] := by decide +kernel
+/-- the hypotheses of the pair theorems are satisfiable and the conclusions are not trivial -/
+example : ∃ x, ((2 : Int), x) ∈ crossingsPair (1 : Rat) 0 (1/2) 10 (7/2) :=
+  (crossing_reported_iff 1 0 (1/2) 10 (7/2) (by decide +kernel) 2).mpr (by decide +kernel)
+example : ¬ ∃ x, ((4 : Int), x) ∈ crossingsPair (1 : Rat) 0 (1/2) 10 (7/2) := fun h =>
+  absurd ((crossing_reported_iff 1 0 (1/2) 10 (7/2) (by decide +kernel) 4).mp h)
+    (by decide +kernel)
 
 end Spowtd
